@@ -128,7 +128,13 @@ func newEnv(rng *lib.Rng) *env {
 	config.DefaultParams = *params
 	e := &env{params: params, db: &utxoDB{txs: map[common.Uint256]interfaces.Transaction{}}, regNode: map[string]string{}}
 	for i := 0; i < 8; i++ {
-		e.keys = append(e.keys, newKey(rng))
+		k := newKey(rng)
+		// corpus: public keys whose last byte reads as a script opcode (a Schnorr
+		// redeem script ends with the key, not with CHECKSIG / CHECKMULTISIG)
+		for want := map[int]byte{0: 0xac, 1: 0xae}[i]; want != 0 && k.pub[32] != want; {
+			k = newKey(rng)
+		}
+		e.keys = append(e.keys, k)
 	}
 	var members []state.ArbiterMember
 	for i := 0; i < 3; i++ {
